@@ -44,7 +44,9 @@ THEOREMS = ["QExPy.C10_mean_def",
             "QExPy.C10_selectors",
             "QExPy.C10_hasZero_iff",
             "QExPy.C10_selectors_zero_from",
-            "QExPy.C10_selectors_zero"]
+            "QExPy.C10_selectors_zero",
+            "QExPy.C10_used_downstream",
+            "QExPy.C10_selected_used_downstream"]
 RULE = ("seeded reading arrays (n 2..40, lists and ndarrays, offsets up to 1e6, spreads down to "
         "1e-3, no / common / per-element uncertainties, occasionally a zero uncertainty), selector "
         "sequences of length 0-8, a downstream formula k*a+c read after every selector, a second "
